@@ -226,6 +226,44 @@ def db_lemmas(tier):
     return out
 
 
+def pk_flag_lemmas(tier):
+    """The primary-key flag the generated decoders give every field is the database's (read off the real AST of nmea2000/pgns.py:
+    the ninth argument of each NMEA2000Field(...) construction in decode_pgn_<definition>).  The per-field proof of all nine
+    arguments is C01; the flag is repeated here because the hash is defined by it."""
+    import ast
+    out = []
+    r = repo()
+    mod = r.load('pgns')
+    d = db()
+    for x in d.defs:
+        if not d.selectable(x):
+            continue
+        fi = mod.functions.get(f'decode_pgn_{x.suffix}')
+        if fi is None:
+            continue
+        got = {}
+        for n in ast.walk(fi.node):
+            if isinstance(n, ast.Call) and isinstance(n.func, ast.Name) and n.func.id == 'NMEA2000Field' and n.args and isinstance(n.args[0], ast.Constant):
+                pk = None
+                if len(n.args) >= 9:
+                    pk = n.args[8]
+                for kw in n.keywords:
+                    if kw.arg == 'part_of_primary_key':
+                        pk = kw.value
+                got[n.args[0].value] = (pk.value if isinstance(pk, ast.Constant) else ('?' if pk is not None else None))
+        bad = []
+        fields = x.fields if x.first_unsupported is None else x.fields[:x.first_unsupported]
+        for f in fields:
+            g = got.get(f.expected_id, 'missing')
+            if g == 'missing':
+                continue            # field construction not found by id (C01 reports that)
+            if bool(g) != bool(f.pk) or g == '?':
+                bad.append(f'{f.expected_id}: flag {g!r}, database {f.pk!r}')
+        if any(f.pk for f in fields) or bad:
+            out.append(Obligation(f'C17/pgns.decode_pgn_{x.suffix}/primary-key-flags-equal-the-database', [], z3.BoolVal(not bad), kind='lemma', meta={'note': '; '.join(bad)[:200]}))
+    return out
+
+
 def join_lemmas():
     items = []
     names = 'abc'
@@ -256,6 +294,8 @@ def main(tier):
     for combined in (True, False):
         run.add(DecodeTask('C17', combined, False))
     run.add(LemmaTask('C17:database', db_lemmas))
+    repo().load('pgns')
+    run.add(LemmaTask('C17:primary-key-flags', pk_flag_lemmas))
     run.add(RawSmtTask('C17:join-injectivity', join_lemmas()))
     run.trust('MD5 treated as injective; str() of an int / float / None contains no underscore (cross-checked by ./check selftest)',
               'cvc5 1.0.3 string solver for the join lemma', 'the primary-key flag of every field equals the database (C01 field attributes)')
